@@ -297,6 +297,63 @@ theorem maxq_aux (x z : List α) (hne : x ≠ []) (hl : z.length = x.length) :
   simp only [List.getElem?_eq_getElem hidx, List.getElem?_eq_getElem hidz]
   nlinarith [sq_nonneg (z[idx] - x[idx])]
 
+/-! ### maxhilb -/
+
+/-- `max_i |W_i·x|` with the signed row of the first maximal `|W_i·x|` as sub-gradient, for every non-empty matrix -/
+theorem maxabs_aux (W : List (List α)) (x z : List α) (hW : W ≠ []) (hl : z.length = x.length) :
+    maxCoeff ((mulVec W z).map abs') ≥ maxCoeff ((mulVec W x).map abs') +
+      dot (smul (if dot x (W.getD (argmax ((mulVec W x).map abs')) []) < 0 then -1 else 1)
+        (W.getD (argmax ((mulVec W x).map abs')) [])) (vsub z x) := by
+  have hyx : (mulVec W x).map abs' = W.map (fun r => abs' (dot r x)) := by simp [mulVec, List.map_map]
+  have hyz : (mulVec W z).map abs' = W.map (fun r => abs' (dot r z)) := by simp [mulVec, List.map_map]
+  rw [hyx, hyz]
+  set yx := W.map (fun r => abs' (dot r x)) with hyxd
+  have hne : yx ≠ [] := by rw [hyxd]; simpa using hW
+  obtain ⟨mv, hmv, hmax, _⟩ := argmax_spec_aux yx hne
+  set idx := argmax yx
+  have hidx : idx < W.length := by
+    have : idx < yx.length := by
+      by_contra hc
+      have : yx[idx]? = none := List.getElem?_eq_none (by omega)
+      rw [this] at hmv; cases hmv
+    simpa [hyxd] using this
+  have hw : W.getD idx [] = W[idx] := by simp [List.getD_eq_getElem?_getD, List.getElem?_eq_getElem hidx]
+  rw [hw]
+  set w := W[idx]
+  have hyv : yx[idx]? = some (abs' (dot w x)) := by rw [hyxd]; simp [hidx]; rfl
+  have hmv' : mv = abs' (dot w x) := by rw [hyv] at hmv; exact (Option.some.inj hmv).symm
+  have hfx : maxCoeff yx = abs' (dot w x) := by
+    apply le_antisymm
+    · obtain ⟨j, hj⟩ := List.getElem?_of_mem (maxCoeff_mem yx hne)
+      have := hmax j _ hj
+      rw [hmv'] at this; exact this
+    · apply maxCoeff_ge; rw [← hmv']; exact List.mem_of_getElem? hmv
+  have hfz : abs' (dot w z) ≤ maxCoeff (W.map (fun r => abs' (dot r z))) := by
+    apply maxCoeff_ge
+    exact List.mem_map.2 ⟨w, List.getElem_mem hidx, rfl⟩
+  rw [hfx, dot_smul_left, dot_vsub_right w z x hl, dot_comm x w]
+  rw [abs'_eq] at hfz ⊢
+  have h1 := le_abs_self (dot w z)
+  have h2 := neg_abs_le (dot w z)
+  split
+  · rename_i hneg
+    rw [abs_of_neg hneg]; linarith
+  · rename_i hnn
+    rw [abs_of_nonneg (not_lt.mp hnn)]; linarith
+
+theorem hilbert_ne_nil (n : Nat) (hn : 0 < n) : (hilbert n : List (List α)) ≠ [] := by
+  unfold hilbert
+  intro h
+  have := congrArg List.length h
+  simp at this
+  omega
+
+theorem maxhilb_aux (x z : List α) (hne : x ≠ []) (hl : z.length = x.length) :
+    maxhilbF z ≥ maxhilbF x + dot (maxhilbG x) (vsub z x) := by
+  unfold maxhilbF maxhilbG
+  simp only
+  rw [hl]
+  exact maxabs_aux (hilbert x.length) x z (hilbert_ne_nil _ (List.length_pos_iff.2 hne)) hl
 /-! ### chained_lq -/
 
 theorem cmax_ge_left (a b : α) : a ≤ cmax a b := by
